@@ -152,10 +152,11 @@ mode=$(cat "$d/mode")
 #   gatefail_after_<i>:<file>  after chunk i wait until <file> exists, then exit 3
 if [ -n "$FAKEGO_MODE" ]; then mode="${FAKEGO_MODE%%:*}"; gate="${FAKEGO_MODE#*:}"; fi
 # an OLDER version of the binary (its last bytes say so) makes fewer system calls: its whole listing is the first chunk
-for a in "$@"; do bin="$a"; done
+# (the binary is the last argument that names a file: a disassembler may be given an address range or a symbol pattern as well)
+for a in "$@"; do if [ -f "$a" ]; then bin="$a"; fi; done
 if [ -f "$bin" ] && [ "$(tail -c 10 "$bin")" = "OLDVERSION" ]; then cat "$d"/chunk_01; exit 0; fi
 waitgate() { n=0; while [ ! -e "$gate" ] && [ $n -lt 1000 ]; do sleep 0.02; n=$((n+1)); done; }
-case "$mode" in fail_after_0) exit 3;; kill_after_0) kill -9 $PPID; exit 3;; sig_after_0) kill -KILL $$;; esac
+case "$mode" in fail_after_0) exit 3;; kill_after_0) kill -9 $PPID; exit 3;; sig_after_0) kill -KILL $$;; term_after_0) kill -TERM $PPID; sleep 0.15;; int_after_0) kill -INT $PPID; sleep 0.15;; hup_after_0) kill -HUP $PPID; sleep 0.15; exit 3;; esac
 i=0
 for c in "$d"/chunk_*; do
   i=$((i+1))
@@ -164,6 +165,9 @@ for c in "$d"/chunk_*; do
     fail_after_$i) exit 3;;
     kill_after_$i) sleep 0.15; kill -9 $PPID; exit 3;;
     sig_after_$i) kill -KILL $$;;
+    term_after_$i) kill -TERM $PPID; sleep 0.15;;
+    int_after_$i) kill -INT $PPID; sleep 0.15;;
+    hup_after_$i) kill -HUP $PPID; sleep 0.15; exit 3;;
     gate_after_$i) waitgate;;
     gatefail_after_$i) waitgate; exit 3;;
   esac
